@@ -33,12 +33,18 @@ pub enum Viol {
     /// value >= 2^bits committed consistently; which: 0 => 2^bits, 1 => 2^bits + 1, 2 => u64::MAX;
     /// promise_fix: the promise is chosen so that value - promise < 2^bits
     ValueTooBig { j: u16, which: u8, promise_fix: bool },
+    /// TWO values >= 2^bits at once, committed consistently (the only generated double violation: excess bits that are equal,
+    /// or differ, at two positions of an aggregate); which_a / which_b: 0 => 2^bits, 1 => 2^bits + 1, 2 => 2^bits + low bits of v, 3 => u64::MAX
+    TwoTooBig { i: u16, j: u16, which_a: u8, which_b: u8 },
     /// promise above the value; which: 0 => v + 1, 1 => 2^bits - 1 (if > v), 2 => u64::MAX
     PromiseAbove { j: u16, which: u8 },
     /// hand-edited statement (its fields are public): the compressed copy of commitment j is the encoding of ANOTHER commitment;
     /// the witness opens either that other commitment (`opens_compressed`) or the commitment itself. Only the clause "whenever
     /// a proof is returned it verifies" is judged on such statements.
     CompressedCopy { j: u16, opens_compressed: bool },
+    /// the statement's commitment generators were assembled by hand with one masking base fewer (false) or one more (true) than
+    /// the degree they declare; the witness has the declared degree. Not a valid generator set: an error, never a panic.
+    GensBaseCount(bool),
 }
 
 fn viol_strategy() -> impl Strategy<Value = Viol> {
@@ -52,7 +58,9 @@ fn viol_strategy() -> impl Strategy<Value = Viol> {
         1 => (any::<u16>(), any::<u16>()).prop_map(|(a, b)| Viol::SwapOpenings(a, b)),
         3 => (any::<u16>(), 0u8..3, any::<bool>()).prop_map(|(j, which, promise_fix)| Viol::ValueTooBig { j, which, promise_fix }),
         3 => (any::<u16>(), 0u8..3).prop_map(|(j, which)| Viol::PromiseAbove { j, which }),
+        2 => (any::<u16>(), any::<u16>(), 0u8..4, 0u8..4).prop_map(|(i, j, which_a, which_b)| Viol::TwoTooBig { i, j, which_a, which_b }),
         1 => (any::<u16>(), any::<bool>()).prop_map(|(j, opens_compressed)| Viol::CompressedCopy { j, opens_compressed }),
+        1 => any::<bool>().prop_map(Viol::GensBaseCount),
     ]
 }
 
@@ -99,6 +107,29 @@ pub fn oracle<E: Engine>(_ctx: &RunCtx, spec: &WitSpec, log: &mut CaseLog) -> Re
                 applied = false;
             }
         },
+        Viol::TwoTooBig { i, j, which_a, which_b } => {
+            if cfg.bits < 64 && cfg.m >= 2 {
+                let i = pick(*i, cfg.m);
+                let mut j = pick(*j, cfg.m);
+                if j == i {
+                    j = (j + 1) % cfg.m;
+                }
+                for (pos, which) in [(i, which_a), (j, which_b)] {
+                    let big = match which {
+                        0 => 1u64 << cfg.bits,
+                        1 => (1u64 << cfg.bits) + 1,
+                        2 => (1u64 << cfg.bits) | (t.values[pos] & mask_of(cfg.bits)),
+                        _ => u64::MAX,
+                    };
+                    values[pos] = big;
+                    if promises[pos].unwrap_or(0) > big {
+                        promises[pos] = None;
+                    }
+                }
+            } else {
+                applied = false;
+            }
+        },
         Viol::PromiseAbove { j, which } => {
             let j = pick(*j, cfg.m);
             let v = values[j];
@@ -124,6 +155,26 @@ pub fn oracle<E: Engine>(_ctx: &RunCtx, spec: &WitSpec, log: &mut CaseLog) -> Re
     let mut w_values = values.clone();
     let mut w_blind = st_blind.clone();
     let mut judge_emission = true;
+    let mut gens_invalid = false;
+    if let Viol::GensBaseCount(more) = &spec.viol {
+        let mut pc = t.params.pc_gens().clone();
+        if *more {
+            let (x, y) = (pc.g_base_vec[0].clone(), pc.g_base_compressed_vec[0]);
+            pc.g_base_vec.push(x);
+            pc.g_base_compressed_vec.push(y);
+        } else {
+            pc.g_base_vec.pop();
+            pc.g_base_compressed_vec.pop();
+        }
+        match tari_bulletproofs_plus::range_parameters::RangeParameters::init(cfg.bits, cfg.cap, pc) {
+            Ok(params) => {
+                st = RangeStatement::init(params, commitments.clone(), promises.clone(), t.seed).map_err(|e| format!("statement: {:?}", e))?;
+                gens_invalid = true;
+            },
+            // a parameter constructor that refuses the set is fine as well
+            Err(_) => applied = false,
+        }
+    }
     if let Viol::CompressedCopy { j, opens_compressed } = &spec.viol {
         use tari_bulletproofs_plus::traits::Compressable;
         let j = pick(*j, cfg.m);
@@ -207,7 +258,8 @@ pub fn oracle<E: Engine>(_ctx: &RunCtx, spec: &WitSpec, log: &mut CaseLog) -> Re
     let valid = w_values.len() == commitments.len() &&
         w_degree == cfg.ext &&
         (0..commitments.len()).all(|j| {
-            Stmt::<E::P>::commit(&rh, &rg, &Scalar::from(w_values[j]), &w_blind[j]) == commitments[j] &&
+            !gens_invalid &&
+                Stmt::<E::P>::commit(&rh, &rg, &Scalar::from(w_values[j]), &w_blind[j]) == commitments[j] &&
                 (cfg.bits >= 64 || (w_values[j] as u128) < (1u128 << cfg.bits)) &&
                 promises[j].unwrap_or(0) <= w_values[j]
         });
@@ -275,11 +327,11 @@ pub fn def() -> PropertyDef {
     PropertyDef {
         id: "C06",
         level: "exploration",
-        rule: "A case is a valid (statement, witness) pair from the C01 generator plus AT MOST ONE violation at a generated position: opening \
+        rule: "A case is a valid (statement, witness) pair from the C01 generator plus AT MOST ONE violation at a generated position (plus one double violation, two values >= 2^bits at two positions of an aggregate): opening \
                count (half / double / +1 / -1), witness degree +1 (extra component zero or not) or -1 (dropped component zero, so the short \
                opening still reproduces the commitment, or not), value +-1, one blinding component +1, two openings swapped, a value >= 2^bits \
                committed consistently (2^bits, 2^bits+1, u64::MAX; with or without a promise that brings value - promise back into range), a \
-               promise above the value (v+1, 2^bits-1, u64::MAX); or a hand-edited statement (public fields) whose compressed copy of commitment j encodes another commitment, the witness opening either of the two - on these only 'a returned proof verifies' is judged. Oracle: prove_with_rng is Ok <=> an independently written validity predicate \
+               promise above the value (v+1, 2^bits-1, u64::MAX); or a hand-edited statement (public fields) whose compressed copy of commitment j encodes another commitment, the witness opening either of the two - on these only 'a returned proof verifies' is judged; or commitment generators assembled by hand with one masking base fewer / more than the degree they declare (an error, never a panic). Oracle: prove_with_rng is Ok <=> an independently written validity predicate \
                (counts, degree, value*h + sum r_k*g_k == commitment under the statement's generators by independent arithmetic, value < 2^bits in 128-bit arithmetic, promise <= value); Ok => the proof verifies; Err => no panic. Non-trivial = exactly one applied violation, or a boundary value (2^bits-1, \
                promise == value); distinct by (violation incl. position, bits, m, degree, validity)."
             .into(),
